@@ -1,7 +1,7 @@
 (* C01 — property theorems only. uval / sval read the two words as an unsigned / two's-complement 128-bit integer;
    wf says both words are in [0, 2^64). smod reduces into [-2^127, 2^127). Every statement is for all well-formed operands. *)
 From Coq Require Import ZArith List Bool.
-From Verif Require Import common.Word64 common.Word64Facts C01.Model C01.ProofsArith C01.ProofsBits C01.ProofsShift C01.ProofsInt.
+From Verif Require Import common.Word64 common.Word64Facts C01.Model C01.ProofsArith C01.ProofsBits C01.ProofsShift C01.ProofsInt C01.ProofsDiv C01.ProofsDiv2.
 Open Scope Z_scope.
 
 (* ---- Uint128 arithmetic = Z mod 2^128 ---- *)
@@ -157,6 +157,22 @@ Theorem C01_Ipredicates64 : forall i n, wf i -> int64 n ->
   IEqual64 i n = (sval i =? n) /\ ILessThan64 i n = (sval i <? n) /\ ILessThanOrEqual64 i n = (sval i <=? n).
 Proof. exact ICmp64_spec. Qed.
 Print Assumptions C01_Ipredicates64.
+
+(* ---- division *)
+(* the 128-by-64 kernel (Hacker's Delight divlu with its two-correction digit loop): exact quotient and remainder whenever the quotient fits *)
+Theorem C01_divmod128by64 : forall u n0, wf u -> 0 < n0 < W -> hi u < n0 ->
+  divmod128by64 u n0 (lz64 n0) = Some (uval u / n0, uval u mod n0).
+Proof. exact divmod128by64_spec. Qed.
+Print Assumptions C01_divmod128by64.
+(* Div, Mod and DivMod of Uint128, through every path of the dispatch (divisor 0 and 1, 64-bit operands, powers of two, comparison
+   shortcuts, the estimate-and-correct kernel, the shift-and-subtract kernel): division by zero is reported as such, and otherwise the
+   exact quotient and remainder come back, so that q * n + r = u and r < n; no path runs out of fuel *)
+Theorem C01_DivMod : forall u n, wf u -> wf n ->
+  (uval n = 0 -> DivMod u n = DivZero /\ Div u n = DivZero /\ Mod u n = DivZero) /\
+  (0 < uval n -> exists q r, DivMod u n = Ok (q, r) /\ Div u n = Ok q /\ Mod u n = Ok r /\
+                 wf q /\ wf r /\ uval q = uval u / uval n /\ uval r = uval u mod uval n /\ uval q * uval n + uval r = uval u /\ uval r < uval n).
+Proof. exact DivMod_spec. Qed.
+Print Assumptions C01_DivMod.
 
 (* non-vacuity and regression *)
 Example C01_ex_onescount : OnesCount (mk 3 7) = 5. Proof. reflexivity. Qed.
